@@ -90,7 +90,9 @@ def get_at(j, path):
 INJECT_KEYS = ['a_matrix', 'x_matrix', 'custom_properties', 'extensions', 'granular_markings', 'object_marking_refs', 'definition', 'definition_type', 'objects',
                'spec_version', 'extension_type', 'x_new', 'hashes', 'modified', 'revoked', 'external_references', 'id', 'type',
                'created_by_ref', 'labels', 'lang', 'selectors', 'marking_ref', 'tlp', 'statement', 'object_refs', 'pattern_type',
-               'ntfs-ext', 'archive-ext', 'windows-pebinary-ext', 'socket-ext', 'extension-definition--00000000-0000-4000-8000-000000000000']
+               'ntfs-ext', 'archive-ext', 'windows-pebinary-ext', 'socket-ext', 'extension-definition--00000000-0000-4000-8000-000000000000',
+               # member names that are legal JSON and unusual as property names
+               '', ' ', '0', 'é', '_', 'x' * 300, 'a.b', 'A']
 INJECT_VALUES = [10 ** 400, [[1, [2]]], {'a': [[1], [2, [3]]]}, None, 0, '', 'junk', [], {}, False, True, {'extension_type': 'toplevel-property-extension'},
                  {'extension_type': 'property-extension'}, {'extension_type': 'new-sdo'}, 'tlp', 'statement', {'tlp': 'white'},
                  {'statement': 's'}, [{}], '2.1', '2.0', 2.1, ['type'], {'ntfs-ext': {'extension_type': 'toplevel-property-extension'}}]
